@@ -251,17 +251,31 @@ structure Rec where
   tris : List (Nat × Tri)
   edgs : List (Nat × Edg)
   nodes : List (Nat × NodeRec F)
+  /-- metric and log-metric of the dumped nodes (begin records) -/
+  mets : List (Nat × M6 F × M6 F)
+  /-- post_min_ratio, post_max_ratio, swap_min_quality, collapse_quality_absolute, split_quality_absolute -/
+  adapt : List F
+  smd : Nat
+  /-- the dumped cells are in an order that agrees with the adjacency order around every dumped node -/
+  exactOrder : Bool
 
 def parseCells (items : List String) (per : Nat) : Option (List (Nat × List Int)) :=
   items.mapM fun w => match splitInts ":" w with
     | some (c :: rest) => if c < 0 ∨ rest.length ≠ per then none else some (c.toNat, rest)
     | _ => none
 
-def parseNode (w : String) : Option (Nat × NodeRec F) :=
+def parseNode (w : String) : Option ((Nat × NodeRec F) × Option (M6 F × M6 F)) :=
   match w.splitOn ":" with
-  | [v, o, x, y, z] =>
+  | v :: o :: x :: y :: z :: rest =>
     match v.toNat?, o.toNat?, parseF? x, parseF? y, parseF? z with
-    | some v, some o, some x, some y, some z => some (v, ⟨⟨x, y, z⟩, o == 1⟩)
+    | some v, some o, some x, some y, some z =>
+      match rest with
+      | [] => some ((v, ⟨⟨x, y, z⟩, o == 1⟩), none)
+      | _ =>
+        match parseFs? rest with
+        | some [a0, a1, a2, a3, a4, a5, l0, l1, l2, l3, l4, l5] =>
+          some ((v, ⟨⟨x, y, z⟩, o == 1⟩), some (⟨a0, a1, a2, a3, a4, a5⟩, ⟨l0, l1, l2, l3, l4, l5⟩))
+        | _ => none
     | _, _, _, _, _ => none
   | _ => none
 
@@ -284,6 +298,9 @@ def parseRec (begin : Bool) (line : String) : Option Rec := do
   let tris ← parseCells (← section? secs "R") 4
   let edgs ← parseCells (← section? secs "E") 3
   let nodes ← (← section? secs "N").mapM parseNode
+  let adapt ← if begin then ((← kv head "adapt").splitOn ",").mapM parseF? else some []
+  let smd ← if begin then (← kv head "smd").toNat? else some 0
+  let approx := (section? secs "XT").isSome || (section? secs "XR").isSome || (section? secs "XE").isSome
   let g3 (l : List Int) (k : Nat) : Int := l.getD k (-1)
   pure { node, surf, state, sc, centres,
          faces := faces.map fun l => ⟨g3 l 0, g3 l 1, g3 l 2⟩,
@@ -292,7 +309,9 @@ def parseRec (begin : Bool) (line : String) : Option Rec := do
          tets := tets.map fun p => (p.1, ⟨g3 p.2 0, g3 p.2 1, g3 p.2 2, g3 p.2 3⟩),
          tris := tris.map fun p => (p.1, ⟨g3 p.2 0, g3 p.2 1, g3 p.2 2, g3 p.2 3⟩),
          edgs := edgs.map fun p => (p.1, ⟨g3 p.2 0, g3 p.2 1, g3 p.2 2⟩),
-         nodes }
+         nodes := nodes.map (·.1),
+         mets := nodes.filterMap fun p => p.2.map fun m => (p.1.1, m.1, m.2),
+         adapt, smd, exactOrder := !approx }
 
 def rowsT (ts : List Tet) : List (List Int) := (ts.map Tet.nodes).mergeSort lexLe
 def rowsR (ts : List Tri) : List (List Int) := (ts.map fun t => t.nodes ++ [t.id]).mergeSort lexLe
@@ -304,6 +323,66 @@ structure Expect where
   t : List (List Int)
   r : List (List Int)
   e : List (List Int)
+
+def gridRows (g : Grid F) : List (List Int) × List (List Int) × List (List Int) :=
+  (rowsT g.tets.valid, rowsR g.tris.valid, rowsE g.edgs.valid)
+
+/-- a cavity up to the order of its lists (the order of the C's lists depends on the adjacency order, which the record
+    reproduces only when `exactOrder`): state, node, surf node, live faces and segs as sorted rows, tet / tri lists sorted -/
+def cavKey (c : Cav) : Nat × Int × Int × List (List Int) × List (List Int) × List (List Int) × List (List Int) :=
+  (c.state.code, c.node, c.surfNode,
+   (c.validFaces.map fun f => [f.n0, f.n1, f.n2]).mergeSort lexLe,
+   (c.validSegs.map fun f => [f.n0, f.n1, f.id]).mergeSort lexLe,
+   (c.tetList.map fun x => [x]).mergeSort lexLe, (c.triList.map fun x => [x]).mergeSort lexLe)
+
+def listOf {β : Type} (entries : List (Nat × β)) (d : β) : List β :=
+  let n := entries.foldl (fun m e => Nat.max m (e.1 + 1)) 0
+  entries.foldl (fun l e => l.set e.1 e.2) (List.replicate n d)
+
+/-- the caller the record comes from, executed on the local grid: `none` = agrees with the record;
+    `some (soft, msg)`: `soft` = attributable to the adjacency order not being reproducible (counted, not a failure) -/
+def callerPath (r : Rec) (g : Grid F) (c : Cav) (plain : List (List Int) × List (List Int) × List (List Int)) :
+    String × Option String :=
+  let nd := nodesOf g (⟨listOf (r.mets.map fun m => (m.1, m.2.1)) identM, listOf (r.mets.map fun m => (m.1, m.2.2)) zeroM⟩ : Met F)
+  let a : Adapt F := { postMin := r.adapt.getD 0 0.0, postMax := r.adapt.getD 1 0.0, swapMinQuality := r.adapt.getD 2 0.0,
+                       swapMaxDegree := r.smd, collapseQualityAbsolute := r.adapt.getD 3 0.0,
+                       splitQualityAbsolute := r.adapt.getD 4 0.0 }
+  if c.collapse0 ≠ -1 ∧ c.collapse1 ≠ -1 then
+    -- ref_collapse_to_remove_node1, the `!allowed` branch
+    let formed : Option Cav := match formEdgeCollapse g Cav.create c.collapse0 c.collapse1 with
+      | (.ok, cf) => if cf.state = .inconsistent then none else
+          match enlargeVisible g cf with
+          | .ret .ok cv => some cv
+          | _ => none
+      | _ => none
+    match formed with
+    | none => ("collapse", some "form_edge_collapse + enlarge_visible do not reach an accepted cavity in the model")
+    | some cv =>
+      if cavKey cv != cavKey c then ("collapse", some "form_edge_collapse + enlarge_visible give a different cavity than the C replaced") else
+      match collapseCavityPath g nd a c.collapse0 c.collapse1 with
+      | (.ok, true, g') =>
+        if gridRows g' != plain then ("collapse", some "collapseCavityPath gives a different grid than replace of the dumped cavity")
+        else ("collapse", none)
+      | (st, rep, _) => ("collapse", some s!"collapseCavityPath = ({st.name}, replaced={rep}): the model would not have replaced")
+  else if c.split0 ≠ -1 ∧ c.split1 ≠ -1 then ("split-not-replayed", none)
+  else
+    -- ref_cavity_swap_tet_pass: the edge is a pair of nodes common to all listed tets
+    let common : List Int := match listedTets g c with
+      | [] => []
+      | t :: rest => t.nodes.filter fun v => v ≠ c.node && rest.all fun u => u.nodes.contains v
+    let pairs := common.flatMap fun x => (common.filter (· ≠ x)).map fun y => (x, y)
+    let hit := pairs.find? fun p =>
+      match formEdgeSwap g Cav.create p.1 p.2 c.node with
+      | (.ok, cs) => (match checkVisible g cs with
+          | (.ok, cv) => cavKey cv == cavKey c
+          | _ => false)
+      | _ => false
+    match hit with
+    | none => ("swap", some "no edge (n0,n1) common to the listed tets reproduces the dumped cavity by form_edge_swap + check_visible")
+    | some p =>
+      match swapTetTrial g nd a p.1 p.2 c.node with
+      | (.ok, some _) => ("swap", none)
+      | (st, q) => ("swap", some s!"swapTetTrial {p.1} {p.2} {c.node} = ({st.name}, {if q.isSome then "some" else "none"}): the change test does not accept this candidate")
 
 /-- the checks on a `begin` record: `(verdict line, what the accept record must show)` -/
 def replayBegin (r : Rec) : String × Option Expect :=
@@ -328,11 +407,20 @@ def replayBegin (r : Rec) : String × Option Expect :=
     let rep := replace g c
     let ex : Expect := ⟨r.node, rep.1 == .ok, rowsT rep.2.2.tets.valid, rowsR rep.2.2.tris.valid, rowsE rep.2.2.edgs.valid⟩
     if !ledger then (s!"bad begin {tag}: certificate certOk fails (ledgerOkAt = {b01 (ledgerOkAt g c)})", some ex) else
+    if !(segIdsOk g c) then (s!"bad begin {tag}: segIdsOk fails (a live seg carries a face id of no listed tri)", some ex) else
     match notVis with
     | f :: _ => (s!"bad begin {tag}: new tet on face {f.n0},{f.n1},{f.n2} has volume <= min_volume", some ex)
     | [] =>
       if rep.1 ≠ .ok then (s!"bad begin {tag}: model replace returns {rep.1.name}", some ex) else
-      (s!"ok begin {tag} new_tets={(newTets c).length} new_tris={(newTris c).length}", some ex)
+      let cp := callerPath r g c (gridRows rep.2.2)
+      let ord := if r.exactOrder then "exact" else "approx"
+      match cp.2 with
+      | none => (s!"ok begin {tag} new_tets={(newTets c).length} new_tris={(newTris c).length} caller={cp.1} order={ord}", some ex)
+      | some msg =>
+        if r.exactOrder then (s!"bad begin {tag} caller={cp.1}: {msg}", some ex) else
+        -- ref_cell_replace_node re-registered a cell at one node only: the loops of the C over the star are not those of
+        -- one registration order, the caller path is not replayed (counted)
+        (s!"ok begin {tag} new_tets={(newTets c).length} new_tris={(newTris c).length} caller={cp.1}-unreplayed order=approx ({msg})", some ex)
 
 def replayAccept (r : Rec) (e : Option Expect) : String :=
   match e with
